@@ -6,6 +6,10 @@ ALL = ["C%02d" % i for i in range(1, 20)]
 
 # id -> (technique, level text, level note, design ref)
 CLAIMED = {
+ "C14": ("rapid property-based testing: generated log files vs. a reference model of the documented selection, in-process and through the real aa-log binary (metamorphic: two runs, same bytes)",
+         "Generated search over log files (1-40 lines: records of all three states in kernel and dbus style with unique tokens, repeats differing in timestamp/pid, STATUS records, foreign lines, noise-path records, blank/garbled/binary lines and lines > 64 KiB, in audit, syslog and journald-JSON framing, with and without a profile filter incl. filters with '.'): the token sequence reported by the library reader, and by the real binary in list and raw mode, must equal the model's (nothing lost, nothing invented, input order, once); the listing rendered five times and every binary mode run twice must give identical bytes; exit status 0.",
+         "Trusts the selection model in c14_test.go; noise exemplars are the documented base-abstraction paths (no borderline spellings); unrelated journal entries are valid JSON (journalctl --output=json always writes valid JSON); output determinism is probabilistic per case (map order), bounded by repetition.",
+         "DESIGN.md §2 C14"),
  "C15": ("rapid property-based testing: log records generated from a field map with kernel / dbus-daemon encoding vs. the field map itself (round trip through the encoder model)",
          "Generated search: 1-4 records per file built from known field values (any key order, any subset of optional fields, values with spaces, '=', '#', ',', control bytes, UTF-8, hex-looking values, look-alike keys such as hostname/srcname, malformed records in front), encoded as the kernel's audit_log_untrustedstring or dbus-daemon would; logs.New must return, for every well-formed record, exactly those values and no others. 25k files per quick run.",
          "Trusts the encoder model in c15_test.go (hex when a byte is < 0x21, > 0x7e or '\"'); profile/name/target values come from an alphabet that the documented generalisation leaves alone (generalisation is C16's subject); pid/peer_pid are not compared. One listed known finding is excluded by construction (hex value containing a double quote) and kept under a fixed witness.",
